@@ -48,18 +48,20 @@ Definition model_obs (c : case) : obs :=
   | AdvCase sd params rawcfg peer_idle wire override _ _ _ _ probes =>
     let ps := map (fun p => (fst p, hx (snd p))) params in
     let w := hx wire in
-    let cfg := populate (config_of_list rawcfg) in
+    let cfg0 := populate (config_of_list rawcfg) in
     let pw := match parse w with Some l => l | None => [] end in
     let kv := kv_of pw in
     let a := advertised kv in
-    let e := mkEnv a (enforced cfg) in
+    (* the Config the connection works with: spec-driven connections raise it to the spec *)
+    let cfg := if sd then cover_config a cfg0 else cfg0 in
+    let e := mkEnv a (if sd then enforced_spec a cfg0 else enforced cfg0) in
     mkObs
       (match parse w with
        | Some l => same_mod_vi ps l && eq_bytes (marshal l) w
        | None => false
        end)
       (match override with
-       | Some o => if sd then match parse (hx o) with Some lo => same_mod_vi lo pw | None => false end else false
+       | Some o => sd && eq_bytes (hx o) w      (* the record is the very byte string sent *)
        | None => negb sd
        end)
       (ms_list a)
